@@ -303,6 +303,26 @@ class Fn:
                     out.append((-1, c["str"]))
         return out
 
+    def fmt_templates(self):
+        """literal pieces of format_args! templates (compact &[u8; N] encoding: <len><literal bytes>... opcodes >= 0x80)"""
+        out = []
+        for bb, s in self.stmts():
+            for o in s.get("o", []):
+                c = o.get("c") if isinstance(o, dict) else None
+                if c and "bytes" in c:
+                    raw = c["bytes"]
+                    pieces = []
+                    i = 0
+                    while i < len(raw):
+                        n = ord(raw[i])
+                        if 0 < n < 0x80 and i + 1 + n <= len(raw):
+                            pieces.append(raw[i + 1:i + 1 + n])
+                            i += 1 + n
+                        else:
+                            i += 1
+                    out.append((bb, pieces))
+        return out
+
     # ---------- value flow (flow-insensitive, per function) ----------
     def defs(self):
         """local -> list of (bb, kind, payload) definitions. payload: stmt dict or Call"""
@@ -310,9 +330,19 @@ class Fn:
             d = collections.defaultdict(list)
             for bb, s in self.stmts():
                 d[s["d"][0]].append((bb, "stmt", s))
+            # `&mut x` handed to a call: the callee may write x (e.g. set.insert(v), vec.push(v))
+            mutref = {}
+            for bb, s in self.stmts():
+                if s.get("k") == "ref" and s.get("mutb") and len(s["d"]) == 1 and s["o"] and "p" in s["o"][0]:
+                    mutref[s["d"][0]] = s["o"][0]["p"][0]
             for c in self.calls():
                 if c.dst:
                     d[c.dst[0]].append((c.bb, "call", c))
+                for a in c.args:
+                    if "p" in a and len(a["p"]) == 1 and a["p"][0] in mutref and len(c.args) > 1:
+                        base = mutref[a["p"][0]]
+                        if not c.dst or base != c.dst[0]:
+                            d[base].append((c.bb, "call", c))
             self._defs = d
         return self._defs
 
@@ -357,7 +387,13 @@ class Fn:
                             break
         return seeds
 
-    def depends_on(self, local, call_filter=None):
+    CONTEXT_TY = re.compile(r"^&(mut )?(mdk_core::MDK<|mdk_core::MdkProvider<|Storage\b|mdk_memory_storage::MdkMemoryStorage\b|mdk_sqlite_storage::MdkSqliteStorage\b|S\b)")
+
+    def is_context_local(self, l):
+        """the receiver / environment object (&MDK, &Storage ...): carries no message- or call-specific data"""
+        return bool(self.CONTEXT_TY.match(self.locals[l])) if 0 <= l < len(self.locals) else False
+
+    def depends_on(self, local, call_filter=None, skip_context_args=False):
         """Backward closure: set of locals `local` may be data-dependent on (flow-insensitive),
         plus the set of Calls and constants that feed it."""
         defs = self.defs()
@@ -391,6 +427,8 @@ class Fn:
                         continue
                     for a in x.args:
                         if "p" in a:
+                            if skip_context_args and len(a["p"]) == 1 and self.is_context_local(a["p"][0]):
+                                continue
                             st.append(a["p"][0])
                         elif "c" in a:
                             consts.append((bb, a["c"]))
